@@ -3,6 +3,8 @@ package rules
 import (
 	"encoding/hex"
 	"fmt"
+	"go/token"
+	"go/types"
 	"regexp"
 	"sort"
 	"strings"
@@ -176,11 +178,36 @@ func c20ABI(c *core.Ctx) {
 	// dispatch: each generation's selectors go with its ABI and decoder
 	td := c.MustFn(rule, "bridgesync", "Claim", "tryDecodeClaimCalldata")
 	if td != nil {
+		tbl := c20TableOf(td, sx)
 		for _, d := range []struct{ dec, meta string }{
 			{"decodeEtrogCalldata", "polygonzkevmbridgev2.Polygonzkevmbridgev2MetaData"},
 			{"decodePreEtrogCalldata", "polygonzkevmbridge.PolygonzkevmbridgeMetaData"},
 		} {
 			calls := core.CallsTo(td, "(*bridgesync.Claim)."+d.dec)
+			if len(calls) == 0 && tbl != nil && tbl.metaPhi != nil {
+				// table form: every row that picks this decoder picks this metadata and is entered under a selector of
+				// this generation; the shared tail unpacks with the picked metadata and hands the result to the picked decoder
+				gen := "Etrog"
+				if d.dec == "decodePreEtrogCalldata" {
+					gen = "PreEtrog"
+				}
+				n, ok := 0, true
+				for _, r := range tbl.rows {
+					if r.dec != d.dec {
+						continue
+					}
+					n++
+					okSel := r.sel == "claimAsset"+gen+"MethodID" || r.sel == "claimMessage"+gen+"MethodID"
+					ok = ok && okSel && strings.HasSuffix(r.meta, d.meta)
+				}
+				sb := core.NewSymx().Bind(tbl.metaPhi, "META")
+				a := tbl.decCall.Call.Args
+				data := sb.Of(a[1]).String()
+				ok = ok && n == 2 && len(a) == 2 && strings.Contains(data, "GetAbi(META)") && strings.Contains(data, ").Unpack(") && strings.Contains(data, "input[const(4):]") &&
+					strings.Contains(data, ").MethodById(") && sb.Of(a[0]).String() == "senderAddr"
+				c.Decide(ok, rule, "bridgesync.(*Claim).tryDecodeClaimCalldata#"+d.dec, td.Pos(), d.dec+" (picked together with "+d.meta+" under its own selectors) receives the inputs unpacked with the method looked up by id in that metadata: "+data)
+				continue
+			}
 			ok := len(calls) == 1
 			if ok {
 				a := core.AsCall(calls[0]).Args
@@ -191,6 +218,88 @@ func c20ABI(c *core.Ctx) {
 			c.Decide(ok, rule, "bridgesync.(*Claim).tryDecodeClaimCalldata#"+d.dec, td.Pos(), d.dec+" receives the inputs unpacked with the method looked up by id in "+d.meta)
 		}
 	}
+}
+
+// c20Row is one row of the table-driven form of tryDecodeClaimCalldata: a switch over the selector picks the contract
+// metadata, the decoder (a bound method value) and the message flag together, and one shared tail unpacks and decodes.
+type c20Row struct {
+	sel     string // the selector global compared on the way into this row
+	meta    string // term of the metadata picked
+	dec     string // decodeEtrogCalldata / decodePreEtrogCalldata
+	isMsg   ssa.Value
+	hasFlag bool
+}
+
+type c20Table struct {
+	rows    []c20Row
+	decCall *ssa.Call // the call through the picked decoder
+	metaPhi *ssa.Phi
+	flagPhi *ssa.Phi
+}
+
+// c20TableOf recognises the table-driven form; nil when tryDecodeClaimCalldata calls its decoders directly.
+func c20TableOf(td *ssa.Function, sx *core.Symx) *c20Table {
+	var t *c20Table
+	core.Instrs(td, func(i ssa.Instruction) {
+		cl, ok := i.(*ssa.Call)
+		if !ok || cl.Call.IsInvoke() || t != nil {
+			return
+		}
+		dphi, ok := cl.Call.Value.(*ssa.Phi)
+		if !ok {
+			return
+		}
+		var rows []c20Row
+		for _, e := range dphi.Edges {
+			mc, ok := e.(*ssa.MakeClosure)
+			if !ok || len(mc.Bindings) != 1 || sx.Of(mc.Bindings[0]).String() != "c" {
+				return
+			}
+			name := strings.TrimSuffix(mc.Fn.Name(), "$bound")
+			if name != "decodeEtrogCalldata" && name != "decodePreEtrogCalldata" {
+				return
+			}
+			rows = append(rows, c20Row{dec: name})
+		}
+		t = &c20Table{rows: rows, decCall: cl}
+		// sibling Phis of the same block: metadata and the message flag
+		for _, ins := range dphi.Block().Instrs {
+			ph, ok := ins.(*ssa.Phi)
+			if !ok || ph == dphi {
+				continue
+			}
+			switch {
+			case isBoolType(ph.Type()):
+				t.flagPhi = ph
+				for k := range rows {
+					t.rows[k].isMsg, t.rows[k].hasFlag = ph.Edges[k], true
+				}
+			case strings.HasSuffix(ph.Type().String(), "bind.MetaData"):
+				t.metaPhi = ph
+				for k := range rows {
+					t.rows[k].meta = sx.Of(ph.Edges[k]).String()
+				}
+			}
+		}
+		// the selector compared on the way into each row
+		for k, pred := range dphi.Block().Preds {
+			for _, g := range []string{"claimAssetEtrogMethodID", "claimMessageEtrogMethodID", "claimAssetPreEtrogMethodID", "claimMessagePreEtrogMethodID"} {
+				edges := core.TermEdges(td, sx, func(s string, _ *core.Term) bool {
+					return strings.HasPrefix(s, "bytes.Equal(input[:const(4)], ") && strings.Contains(s, "."+g+")")
+				}, true)
+				first := pred.Instrs[0]
+				if len(edges) > 0 && core.ReachableWithout(core.Entry(td), edges, func(x ssa.Instruction) bool { return x == first }) == nil {
+					t.rows[k].sel = g
+				}
+			}
+		}
+	})
+	return t
+}
+
+func isBoolType(t types.Type) bool {
+	b, ok := t.Underlying().(*types.Basic)
+	return ok && b.Kind() == types.Bool
 }
 
 func c20Match(c *core.Ctx) {
@@ -233,6 +342,30 @@ func c20Match(c *core.Ctx) {
 	}
 	td := c.MustFn(rule, "bridgesync", "Claim", "tryDecodeClaimCalldata")
 	if td != nil {
+		if tbl := c20TableOf(td, sx); tbl != nil && tbl.flagPhi != nil {
+			// table form: IsMessage ← the flag picked with the decoder, stored only past found == true, and the flag of each
+			// row says whether the selector that row was entered under is the claimMessage selector (of the row's generation)
+			found := core.ExtractOf(tbl.decCall, 0)
+			edges := core.BoolEdges(td, found, true)
+			var stores []*ssa.Store
+			core.Instrs(td, func(i ssa.Instruction) {
+				if st, ok := i.(*ssa.Store); ok && sx.Of(st.Addr).String() == "c.IsMessage" {
+					stores = append(stores, st)
+				}
+			})
+			for k, r := range tbl.rows {
+				gen := "Etrog"
+				if r.dec == "decodePreEtrogCalldata" {
+					gen = "PreEtrog"
+				}
+				ok := len(stores) == 1 && stores[0].Val == ssa.Value(tbl.flagPhi) && len(edges) > 0 &&
+					core.ReachableWithout(core.Entry(td), edges, func(x ssa.Instruction) bool { return x == ssa.Instruction(stores[0]) }) == nil
+				ok = ok && r.hasFlag && (isConstBool(r.isMsg, true) && r.sel == "claimMessage"+gen+"MethodID" || isConstBool(r.isMsg, false) && r.sel == "claimAsset"+gen+"MethodID")
+				c.Decide(ok, rule, fmt.Sprintf("bridgesync.(*Claim).tryDecodeClaimCalldata#IsMessage-row%d", k+1), td.Pos(),
+					fmt.Sprintf("row entered under %s picks %s and flag %s; IsMessage ← the picked flag, only when that decoder found the claim", r.sel, r.dec, sx.Of(r.isMsg)))
+			}
+			return
+		}
 		n := 0
 		core.Instrs(td, func(i ssa.Instruction) {
 			st, ok := i.(*ssa.Store)
@@ -272,19 +405,52 @@ func c20Revert(c *core.Ctx) {
 		return
 	}
 	sx := core.NewSymx()
-	// the popped frame
-	var pop *ssa.Call
+	// the frame taken off the work list: stack.Pop(), or an element load from a []call work list that the loop carries
+	// (`cur := pending[last]; pending = pending[:last]` … `pending = append(pending, child)`)
+	var pop ssa.Instruction
+	isPush := func(i ssa.Instruction) bool { return strings.HasSuffix(core.CallName(i), "stack.Stack).Push") }
 	core.Instrs(fn, func(i ssa.Instruction) {
 		if strings.HasSuffix(core.CallName(i), "stack.Stack).Pop") {
-			pop, _ = i.(*ssa.Call)
+			pop = i
 		}
 	})
+	popMark := "Pop("
+	if pop == nil {
+		var work *ssa.Phi
+		core.Instrs(fn, func(i ssa.Instruction) {
+			ld, ok := i.(*ssa.UnOp)
+			if !ok || ld.Op != token.MUL || pop != nil {
+				return
+			}
+			ia, ok := ld.X.(*ssa.IndexAddr)
+			if !ok {
+				return
+			}
+			ph, ok := ia.X.(*ssa.Phi)
+			if !ok || !isCallSlice(ph.Type()) {
+				return
+			}
+			pop, work = ld, ph
+		})
+		if work != nil {
+			sx.Bind(pop.(ssa.Value), "FRAME")
+			popMark = "FRAME"
+			isPush = func(i ssa.Instruction) bool {
+				cl, ok := i.(*ssa.Call)
+				if !ok {
+					return false
+				}
+				b, isB := cl.Call.Value.(*ssa.Builtin)
+				return isB && b.Name() == "append" && isCallSlice(cl.Type())
+			}
+		}
+	}
 	if pop == nil {
 		c.Undecide(rule, "bridgesync.findCall#pop", fn.Pos(), "no stack pop")
 		return
 	}
 	okFrame := core.TermEdges(fn, sx, func(s string, _ *core.Term) bool {
-		return strings.HasSuffix(s, ".Err != const(nil))") && strings.Contains(s, "Pop(") && !strings.Contains(s, ".Calls[")
+		return strings.HasSuffix(s, ".Err != const(nil))") && strings.Contains(s, popMark) && !strings.Contains(s, ".Calls[")
 	}, false)
 	if len(okFrame) == 0 {
 		c.Violate(rule, "bridgesync.findCall#frame-not-reverted", fn.Pos(), "the popped frame's Err is not tested")
@@ -300,7 +466,7 @@ func c20Revert(c *core.Ctx) {
 		if r, ok := i.(*ssa.Return); ok && len(r.Results) == 2 && !isNilConst(r.Results[0]) {
 			return true
 		}
-		if strings.HasSuffix(core.CallName(i), "stack.Stack).Push") && i != nil {
+		if i != nil && isPush(i) {
 			// pushing children (not the root push before the loop)
 			return core.Dominates(pop, i)
 		}
@@ -347,6 +513,16 @@ func c20Revert(c *core.Ctx) {
 		}
 		c.Decide(ok && okRet, rule, "bridgesync.(*Claim).setClaimCalldata#root-and-result", sc.Pos(), "a reverted root call is refused; the search's error (incl. not found) is returned")
 	}
+}
+
+// isCallSlice: []bridgesync.call
+func isCallSlice(t types.Type) bool {
+	sl, ok := t.Underlying().(*types.Slice)
+	if !ok {
+		return false
+	}
+	n, ok := sl.Elem().(*types.Named)
+	return ok && n.Obj().Name() == "call" && n.Obj().Pkg() != nil && strings.HasSuffix(n.Obj().Pkg().Path(), "/bridgesync")
 }
 
 func c20Error(c *core.Ctx) {
